@@ -13,6 +13,9 @@ def NOPS : Nat := 10
 structure PState where
   lines : Array String
   pos : Nat
+  /-- the history's PoA admin is the x/gov account (`ADMIN gov`): the account of the environment override (signer -1) is
+      then an ordinary account — modelled as the operator account of a validator that never exists -/
+  govAdmin : Bool := false
 
 abbrev P := StateT PState (ExceptT String IO)
 
@@ -44,7 +47,8 @@ def pTarget (s : String) : P (Option Nat) := do
 
 def pSigner (s : String) : P Signer := do
   let v ← pInt s
-  pure (if v = -1 then .admin else if v = -2 then .user else .op v.toNat)
+  let st ← get
+  pure (if v = -1 then (if st.govAdmin then .op 999999 else .admin) else if v = -2 then .user else .op v.toNat)
 
 partial def pMsg : P Msg := do
   let f ← nextLine
@@ -69,6 +73,7 @@ partial def pMsg : P Msg := do
   | ["M", "STAKING", k] => pure (.staking (← pNat k))
   | ["M", "WITHDRAW"] => pure .withdraw
   | ["M", "OTHER"] => pure .other
+  | ["M", "VOTE", _] => pure (.govProp [])      -- a vote on a governance proposal: no modelled state, outcome not modelled
   | ["M", kind, n] =>
     let cnt ← pNat n
     let mut subs : List Msg := []
@@ -78,14 +83,16 @@ partial def pMsg : P Msg := do
     | "EXEC" => pure (.exec subs)
     | "GROUPPROP" => pure (.groupProp subs)
     | "GOVPROP" => pure (.govProp subs)
+    | "GOVSUB" => pure (.govProp subs)           -- a proposal whose messages are sent by the gov account itself
     | _ => throw s!"bad wrapper {kind}"
   | _ => throw s!"bad msg line {f}"
 
-def pBlock (dt nv nt : String) (ne : String := "0") : P Block := do
+def pBlock (dt nv nt : String) (ne : String := "0") (ng : String := "0") : P Block := do
   let dt ← pInt dt
   let nv ← pNat nv
   let nt ← pNat nt
   let ne ← pNat ne
+  let ng ← pNat ng
   let mut votes : List App.Vote := []
   for _ in [0:nv] do
     match ← nextLine with
@@ -110,8 +117,18 @@ def pBlock (dt nv nt : String) (ne : String := "0") : P Block := do
       counts := App.seqBump counts signer
       txs := txs ++ [{ signer := signer, seqOff := off, msgs := msgs }]
     | l => throw s!"expected TX got {l}"
+  let mut gov : List (List Msg) := []
+  for _ in [0:ng] do
+    match ← nextLine with
+    | ["GOV", n] =>
+      let cnt ← pNat n
+      let mut msgs : List Msg := []
+      for _ in [0:cnt] do
+        msgs := msgs ++ [← pMsg]
+      gov := gov ++ [msgs]
+    | l => throw s!"expected GOV got {l}"
   match ← nextLine with
-  | ["ENDBLOCK"] => pure { dt := dt, votes := votes, txs := txs, evid := evid }
+  | ["ENDBLOCK"] => pure { dt := dt, votes := votes, txs := txs, evid := evid, gov := gov }
   | l => throw s!"expected ENDBLOCK got {l}"
 
 /-! ### printing -/
@@ -180,6 +197,17 @@ def trigLines (env : Env) (s0 : App) (b : Block) : List String := Id.run do
       if !t.isEmpty then
         res := res ++ [s!"TRIG {i}" ++ String.join (t.map (fun x => " " ++ trigName x))]
     i := i + 1
+  -- the proposals x/gov executes at the end of the block: numbered after the block's transactions
+  for ms in b.gov do
+    let pre := s
+    match App.handleList env.lim s .admin ms with
+    | .ok s' =>
+      s := s'
+      let t := (Trig.ofList env.lim pre .admin ms).1.eraseDups
+      if !t.isEmpty then
+        res := res ++ [s!"TRIG {i}" ++ String.join (t.map (fun x => " " ++ trigName x))]
+    | _ => pure ()
+    i := i + 1
   return res
 
 def out (l : String) : P Unit := do
@@ -190,8 +218,11 @@ partial def runBlocks (s : App) (set : CSet) (halted : Bool) : P Unit := do
   match ← nextLine with
   | ["END"] => out "END"
   | ["RESTART"] => runBlocks s set halted
+  | ["ADMIN", a] =>
+    modify (fun st => { st with govAdmin := a == "gov" })
+    runBlocks s set halted
   | "BLOCK" :: dt :: nv :: nt :: rest =>
-    let b ← pBlock dt nv nt (rest.headD "0")
+    let b ← pBlock dt nv nt (rest.headD "0") ((rest.drop 1).headD "0")
     if halted then runBlocks s set halted
     else
       let h := s.height + 1
@@ -210,7 +241,9 @@ partial def runBlocks (s : App) (set : CSet) (halted : Bool) : P Unit := do
         out s!"H {h}"
         let mut i := 0
         for r in bo.txrs do
-          out s!"TXR {i} {txrStr r}"
+          -- results beyond the block's transactions are those of the proposals x/gov executed
+          if i < b.txs.length then out s!"TXR {i} {txrStr r}"
+          else out s!"TXR {i} {if r == TxR.ok then "ok" else "govfail"}"
           i := i + 1
         for t in trigLines theEnv s b do out t
         out ("UPD" ++ pairs bo.updates)
@@ -234,6 +267,7 @@ partial def runAll : P Unit := do
   match ← nextLine with
   | [] => pure ()
   | ["GENESIS", mv, ub, w, ms, jn, sd, mc, n] =>
+    modify (fun st => { st with govAdmin := false })
     let cnt ← pNat n
     let mut vals : List GVal := []
     for _ in [0:cnt] do
@@ -347,7 +381,8 @@ partial def lMsg : Msg → String
 def lBlock (b : Block) : String :=
   s!"⟨{lInt b.dt}, " ++ lList (b.votes.map (fun v => s!"⟨{v.key}, {lInt v.power}, {lBool v.absent}⟩")) ++ ", " ++
   lList (b.txs.map (fun t => s!"⟨{lSigner t.signer}, {t.seqOff}, {lList (t.msgs.map lMsg)}⟩")) ++ ", " ++
-  lList (b.evid.map (fun e => s!"⟨{e.key}, {lInt e.height}, {lInt e.power}⟩")) ++ "⟩"
+  lList (b.evid.map (fun e => s!"⟨{e.key}, {lInt e.height}, {lInt e.power}⟩")) ++ ", " ++
+  lList (b.gov.map (fun ms => lList (ms.map lMsg))) ++ "⟩"
 
 def lErr (e : Err) : String :=
   let sp := match e.space with
@@ -370,8 +405,11 @@ partial def certBlocks (name : String) (i : Nat) (s : App) (set : CSet) (acc : L
   match ← nextLine with
   | ["END"] => pure (acc, "RunEnd.done", i - 1, i - 1)
   | ["RESTART"] => certBlocks name i s set acc
+  | ["ADMIN", a] =>
+    modify (fun st => { st with govAdmin := a == "gov" })
+    certBlocks name i s set acc
   | "BLOCK" :: dt :: nv :: nt :: rest =>
-    let b ← pBlock dt nv nt (rest.headD "0")
+    let b ← pBlock dt nv nt (rest.headD "0") ((rest.drop 1).headD "0")
     let acc := acc ++ [s!"def b{i} : Block := {lBlock b}"]
     match App.block theEnv s b with
     | .error hk =>
@@ -397,6 +435,7 @@ partial def certBlocks (name : String) (i : Nat) (s : App) (set : CSet) (acc : L
 def certMain (name : String) : P Unit := do
   match ← nextLine with
   | ["GENESIS", mv, ub, w, ms, jn, sd, mc, n] =>
+    modify (fun st => { st with govAdmin := false })
     let cnt ← pNat n
     let mut vals : List GVal := []
     for _ in [0:cnt] do
